@@ -198,7 +198,7 @@ HINTS = [
     cl("h_level_items_kept", "forall(lambda l, i: imp(0 <= l < len(self._levels) and 0 <= i < at_head(len(self._levels[l])), "
        "self._levels[l][i] == at_head(self._levels[l][i]) and allocated(self._levels[l][i])), pat=self._levels[l][i])"),
     cl("h_level_lengths", "forall(lambda l: imp(0 <= l < len(self._levels), "
-       "len(self._levels[l]) == at_head(len(self._levels[l])) + ite(l == target_level, 1, 0)), pat=self._levels[l])"),
+       "len(self._levels[l]) == at_head(len(self._levels[l])) + ite(l == target_level, 1, 0)), pat=self._levels[l])", tags="C08 C07"),
     cl("h_new_element", "self._levels[target_level][at_head(len(self._levels[target_level]))] == child and not at_head(allocated(child))"),
     cl("h_children_lists", "forall(lambda l, i: imp(0 <= l < len(self._levels) and 0 <= i < at_head(len(self._levels[l])), "
        "self._levels[l][i]._children == at_head(self._levels[l][i]._children) and "
